@@ -35,3 +35,19 @@ Theorem C08_format_constraint_evaluation : forall c e, no_then e = true -> fc_to
   exists r, fc_evaluation c (Some e) = Ok r /\ ff r = bval (beta_of c) e /\ (fc_messages_ok c e -> (fmsg r <> None <-> ff r = false)).
 Proof. exact fc_evaluation_value. Qed.
 Print Assumptions C08_format_constraint_evaluation.
+
+(* ---- every schedule. Model/EvalFCAsync.v writes format_constraint_evaluation as a task tree: one gathered coroutine per key occurrence, each
+   reading the ContextVar and calling the user's evaluate_<key>(text) (an arbitrary program), dict(zip(keys, results)), the transformer on that dict.
+   Whatever the order in which the single constraints are evaluated, the result is the sequential model's, and every single evaluation is handed
+   the text the ContextVar holds in the evaluating task ([single_of c k] is the program of key k run on [c TEXTV]). *)
+From Ahb Require Import Model.Async Model.EvalFCAsync Proofs.C08_async.
+
+Theorem C08_format_constraint_evaluation_under_every_schedule : forall (U : Type) (fcp : text -> fv U -> prog (fv U)) (c : ctx (fv U))
+    (e : option kexpr) (r : fv U),
+  steps (initial c (fc_prog U fcp e)) (Done r) -> as_result r = fc_evaluation_gen (single_of U fcp c) e.
+Proof. exact fc_every_schedule. Qed.
+Print Assumptions C08_format_constraint_evaluation_under_every_schedule.
+
+Theorem C08_sequential_model_is_fc_evaluation : forall c e, fc_evaluation c e = fc_evaluation_gen (single_of_cer c) e.
+Proof. exact fc_evaluation_is_gen. Qed.
+Print Assumptions C08_sequential_model_is_fc_evaluation.
